@@ -271,12 +271,19 @@ void runC14() {
 // ---------------------------------------------------------------------------
 // C12: all (saver, loader) pairs
 
+// the serial buffer between canaries; the canary pattern varies (a stray read of the byte behind the buffer must not
+// matter, a stray write must be seen whatever bit it flips)
 struct Guarded {
 	uint8_t pre[16];
 	Instance::SerialBuffer buf;
 	uint8_t post[16];
-	Guarded() { memset(pre, 0xA5, sizeof pre); memset(post, 0x5A, sizeof post); memset(static_cast<void*>(&buf), 0xFF, sizeof buf); }
-	bool intact() const { for (auto c : pre) if (c != 0xA5) return false; for (auto c : post) if (c != 0x5A) return false; return true; }
+	uint8_t a, b;
+	explicit Guarded(unsigned pattern = 0) {
+		static const uint8_t PRE[4] = {0xA5, 0xFF, 0x00, 0x5A}, POST[4] = {0x5A, 0xFF, 0x00, 0xA5};
+		a = PRE[pattern & 3]; b = POST[pattern & 3];
+		memset(pre, a, sizeof pre); memset(post, b, sizeof post); memset(static_cast<void*>(&buf), (pattern & 4) ? 0x00 : 0xFF, sizeof buf);
+	}
+	bool intact() const { for (auto c : pre) if (c != a) return false; for (auto c : post) if (c != b) return false; return true; }
 };
 
 void putInto(Instance& m, int k) {
@@ -299,7 +306,7 @@ void runC12() {
 	else { vh::Rng rng(g_args.seed * 7 + N); loaderStates = {-1, 0, static_cast<int>(N - 1), static_cast<int>(N / 2)}; for (int i = 0; i < 12; ++i) loaderStates.push_back(static_cast<int>(rng.below(N))); }
 	for (int a = -1; a < static_cast<int>(N); ++a) {
 		putInto(saver, a);
-		Guarded g;
+		Guarded g(static_cast<unsigned>(a + 1));
 		g_n = 0;
 		static_cast<const Instance&>(saver).save(g.buf);
 		if (g_n) viol("C12", "save-ran-callbacks", "save() in activity " + std::to_string(a) + ": " + logStr());
@@ -314,10 +321,14 @@ void runC12() {
 		canon[static_cast<size_t>(a + 1)] = bytes;
 		for (int b : loaderStates) {
 			putInto(loader, b);
+			// the loader reads from a copy of the buffer placed between canaries of a varying pattern
+			Guarded gl(static_cast<unsigned>(a + 1) * 3u + static_cast<unsigned>(b + 1));
+			memcpy(static_cast<void*>(&gl.buf), &g.buf, BYTES);
 			g_vetoAll = true;
 			g_n = 0;
-			loader.load(g.buf);
+			loader.load(gl.buf);
 			g_vetoAll = false;
+			if (!gl.intact() || memcmp(&gl.buf, &g.buf, BYTES) != 0) viol("C12", "load-modified-the-buffer-or-its-surroundings", "saver " + std::to_string(a) + ", loader " + std::to_string(b));
 			std::vector<Expect> e;
 			const uint8_t A = static_cast<uint8_t>(a), B = static_cast<uint8_t>(b);
 			bool alt = false;
@@ -330,16 +341,60 @@ void runC12() {
 			checkIdentity(loader, "load()");
 			const int la = loader.isActive() ? static_cast<int>(loader.activeStateId()) : -1;
 			if (la != a) viol("C12", "loader-activity-differs-from-saver", "saver " + std::to_string(a) + ", loader after load() " + std::to_string(la));
-			Guarded g2;
+			Guarded g2(static_cast<unsigned>(b + 2));
 			static_cast<const Instance&>(loader).save(g2.buf);
+			if (!g2.intact()) viol("C12", "save-wrote-outside-buffer", "canary damaged (re-save)");
 			if (memcmp(&g2.buf, &g.buf, BYTES) != 0) viol("C12", "buffers-differ-for-equal-activity", "loader re-saved differs, activity " + std::to_string(a));
 			g_stats.add("load_pairs_checked");
 			g_sigs.insert(vh::mix(vh::mix(N, WIDE_HEAD), vh::mix(static_cast<uint64_t>(a + 1), static_cast<uint64_t>(b + 1))));
 		}
 	}
+	// the same round trip through a buffer that is a heap object of exactly sizeof(SerialBuffer) bytes: under
+	// AddressSanitizer / memcheck an access one byte past it is reported (C18)
+	for (int a = -1; a < static_cast<int>(N); a += (N > 40 ? 7 : 1)) {
+		putInto(saver, a);
+		Instance::SerialBuffer* hb = new Instance::SerialBuffer;
+		static_cast<const Instance&>(saver).save(*hb);
+		putInto(loader, a < 0 ? 0 : -1);
+		loader.load(*hb);
+		const int la = loader.isActive() ? static_cast<int>(loader.activeStateId()) : -1;
+		if (la != a) viol("C12", "loader-activity-differs-from-saver|heap-buffer", "saver " + std::to_string(a) + ", loader after load() " + std::to_string(la));
+		delete hb;
+		g_stats.add("heap_buffer_round_trips");
+	}
 	if (saver.isActive()) saver.exit();
 	if (loader.isActive()) loader.exit();
 	g_stats.add(allPairs ? "machines_all_pairs" : "machines_sampled_pairs");
+}
+
+// C13, last clause: the bit width the machine derives for its state count encodes every state index of that count
+void runC13() {
+	constexpr unsigned BITS = Instance::SerialBuffer::BIT_CAPACITY;
+	constexpr unsigned BYTES = sizeof(Instance::SerialBuffer);
+	if ((1ull << (BITS - 1)) < N) viol("C13", "derived-width-cannot-encode-every-index", std::to_string(BITS) + " bits (1 activity bit + index) for " + std::to_string(N) + " states");
+	if (BYTES * 8 < BITS) viol("C13", "buffer-smaller-than-its-bit-capacity", std::to_string(BYTES) + " bytes for " + std::to_string(BITS) + " bits");
+	Instance saver, loader;
+	std::vector<std::vector<uint8_t>> seen;
+	for (int a = 0; a < static_cast<int>(N); ++a) {
+		putInto(saver, a);
+		Guarded g(static_cast<unsigned>(a));
+		static_cast<const Instance&>(saver).save(g.buf);
+		const uint8_t* p = reinterpret_cast<const uint8_t*>(&g.buf);
+		std::vector<uint8_t> bytes(p, p + BYTES);
+		for (size_t i = 0; i < seen.size(); ++i)
+			if (seen[i] == bytes) { viol("C13", "two-state-indices-encode-identically", "index " + std::to_string(i) + " and " + std::to_string(a) + " of a " + std::to_string(N) + "-state machine"); break; }
+		seen.push_back(bytes);
+		putInto(loader, a == 0 && N > 1 ? 1 : 0);
+		Guarded gl(static_cast<unsigned>(a) + 1u);
+		memcpy(static_cast<void*>(&gl.buf), &g.buf, BYTES);
+		loader.load(gl.buf);
+		const int la = loader.isActive() ? static_cast<int>(loader.activeStateId()) : -1;
+		if (la != a) viol("C13", "state-index-does-not-survive-its-encoding", "index " + std::to_string(a) + " of a " + std::to_string(N) + "-state machine was written with the derived width and read back as " + std::to_string(la));
+		g_stats.add("index_round_trips");
+		g_sigs.insert(vh::mix(vh::mix(N, WIDE_HEAD), static_cast<uint64_t>(a)));
+	}
+	if (saver.isActive()) saver.exit();
+	if (loader.isActive()) loader.exit();
 }
 
 }
@@ -348,7 +403,8 @@ int main(int argc, char** argv) {
 	g_args = vh::parseArgs(argc, argv);
 	if (g_args.prop == "C12") runC12();
 	else if (g_args.prop == "C14") runC14();
-	else { runC14(); runC12(); }
+	else if (g_args.prop == "C13") runC13();
+	else { runC14(); runC12(); runC13(); }
 	g_stats.add2("sizes", std::to_string(N) + (WIDE_HEAD ? "h" : "p"));
 	g_stats.emit();
 	vh::writeSigs(g_args.str("sigfile", ""), g_sigs);
